@@ -262,84 +262,87 @@ func TestVerif_C14(t *testing.T) {
 		if !verifkit.Mine(ci) {
 			continue
 		}
-		r := verifkit.Rand("C14", ci)
-		e := newC14Env(4, 6)
-		var ops []c14Op
-		fp := ""
-		multi := map[int]map[int]bool{}
-		expired := false
-		steps := 30 + r.Intn(30)
-		for s := 0; s < steps; s++ {
-			var op c14Op
-			switch k := r.Intn(100); {
-			case k < 35:
-				op = c14Op{Op: "inv", Conn: r.Intn(4)}
-				for _, t := range r.Perm(6)[:1+r.Intn(3)] {
-					if !e.confirmed[t] { // re-announcement after confirmation is C03's subject
-						op.Txs = append(op.Txs, t)
+		ci := ci
+		verifkit.RunCase(rep, ci, func() {
+			r := verifkit.Rand("C14", ci)
+			e := newC14Env(4, 6)
+			var ops []c14Op
+			fp := ""
+			multi := map[int]map[int]bool{}
+			expired := false
+			steps := 30 + r.Intn(30)
+			for s := 0; s < steps; s++ {
+				var op c14Op
+				switch k := r.Intn(100); {
+				case k < 35:
+					op = c14Op{Op: "inv", Conn: r.Intn(4)}
+					for _, t := range r.Perm(6)[:1+r.Intn(3)] {
+						if !e.confirmed[t] { // re-announcement after confirmation is C03's subject
+							op.Txs = append(op.Txs, t)
+						}
 					}
-				}
-				if len(op.Txs) == 0 {
-					continue
-				}
-				for _, t := range op.Txs {
-					if multi[t] == nil {
-						multi[t] = map[int]bool{}
+					if len(op.Txs) == 0 {
+						continue
 					}
-					multi[t][op.Conn] = true
-				}
-			case k < 45:
-				// body of a requested tx arrives
-				var cand []int
-				for t := range e.lastReq {
-					if !e.haveBody[t] {
-						cand = append(cand, t)
+					for _, t := range op.Txs {
+						if multi[t] == nil {
+							multi[t] = map[int]bool{}
+						}
+						multi[t][op.Conn] = true
 					}
-				}
-				if len(cand) == 0 {
-					continue
-				}
-				sortInts(cand)
-				op = c14Op{Op: "body", Txs: []int{cand[r.Intn(len(cand))]}}
-			case k < 70:
-				op = c14Op{Op: "age", Sec: ages[r.Intn(len(ages))]}
-				if op.Sec > 3 {
-					expired = true
-				}
-			case k < 75:
-				var cand []int
-				for t := 0; t < 6; t++ {
-					if _, asked := e.lastReq[t]; asked && !e.confirmed[t] {
-						cand = append(cand, t)
+				case k < 45:
+					// body of a requested tx arrives
+					var cand []int
+					for t := range e.lastReq {
+						if !e.haveBody[t] {
+							cand = append(cand, t)
+						}
 					}
+					if len(cand) == 0 {
+						continue
+					}
+					sortInts(cand)
+					op = c14Op{Op: "body", Txs: []int{cand[r.Intn(len(cand))]}}
+				case k < 70:
+					op = c14Op{Op: "age", Sec: ages[r.Intn(len(ages))]}
+					if op.Sec > 3 {
+						expired = true
+					}
+				case k < 75:
+					var cand []int
+					for t := 0; t < 6; t++ {
+						if _, asked := e.lastReq[t]; asked && !e.confirmed[t] {
+							cand = append(cand, t)
+						}
+					}
+					if len(cand) == 0 {
+						continue
+					}
+					op = c14Op{Op: "confirm", Txs: []int{cand[r.Intn(len(cand))]}}
+				default:
+					op = c14Op{Op: "check", Conn: r.Intn(4)}
 				}
-				if len(cand) == 0 {
-					continue
+				ops = append(ops, op)
+				before := len(e.lastReq)
+				v := e.apply(op)
+				rep.Event("op:"+op.Op, 1)
+				fp += fmt.Sprintf("%s%d,", op.Op[:2], len(e.lastReq)-before)
+				if v != nil {
+					rep.Finding(ci, "C14/"+v.rule, v.detail+" | ops: "+fmt.Sprint(ops), map[string]interface{}{"ops": fmt.Sprint(ops)})
+					break
 				}
-				op = c14Op{Op: "confirm", Txs: []int{cand[r.Intn(len(cand))]}}
-			default:
-				op = c14Op{Op: "check", Conn: r.Intn(4)}
 			}
-			ops = append(ops, op)
-			before := len(e.lastReq)
-			v := e.apply(op)
-			rep.Event("op:"+op.Op, 1)
-			fp += fmt.Sprintf("%s%d,", op.Op[:2], len(e.lastReq)-before)
-			if v != nil {
-				rep.Finding(ci, "C14/"+v.rule, v.detail+" | ops: "+fmt.Sprint(ops), map[string]interface{}{"ops": fmt.Sprint(ops)})
-				break
+			nt := false
+			for _, cs := range multi {
+				if len(cs) > 1 && expired {
+					nt = true
+				}
 			}
-		}
-		nt := false
-		for _, cs := range multi {
-			if len(cs) > 1 && expired {
-				nt = true
+			rep.Case(fp, nt)
+			if rep.WantSample() {
+				rep.Sample(map[string]interface{}{"case": ci, "ops": fmt.Sprint(ops)})
 			}
-		}
-		rep.Case(fp, nt)
-		if rep.WantSample() {
-			rep.Sample(map[string]interface{}{"case": ci, "ops": fmt.Sprint(ops)})
-		}
+		})
 	}
 }
 
@@ -351,22 +354,25 @@ func c14Bulk(rep *verifkit.Report) {
 		if !verifkit.Mine(ci) {
 			continue
 		}
-		r := verifkit.Rand("C14/bulk", ci)
-		ntx := []int{99, 100, 101, 102, 150, 201, 203, 250, 305}[r.Intn(9)]
-		e := newC14Env(3, ntx)
-		all := r.Perm(ntx)
-		ops := []c14Op{{Op: "inv", Conn: 0, Txs: all}, {Op: "inv", Conn: 1, Txs: r.Perm(ntx)},
-			{Op: "inv", Conn: 2, Txs: r.Perm(ntx)[:1+r.Intn(ntx)]}, {Op: "age", Sec: 3.5}, {Op: "check", Conn: 1},
-			{Op: "age", Sec: 1}, {Op: "check", Conn: 2}, {Op: "age", Sec: 2.5}, {Op: "check", Conn: 2}, {Op: "check", Conn: 0}}
-		for _, op := range ops {
-			rep.Event("bulk_op:"+op.Op, 1)
-			if v := e.apply(op); v != nil {
-				rep.Finding(ci, "C14/"+v.rule+"/bulk", fmt.Sprintf("%s | bulk scenario with %d txids: c0 asked, c1 and c2 told to wait, windows expire, checks", v.detail, ntx), map[string]interface{}{"ntx": ntx})
-				break
+		ci := ci
+		verifkit.RunCase(rep, ci, func() {
+			r := verifkit.Rand("C14/bulk", ci)
+			ntx := []int{99, 100, 101, 102, 150, 201, 203, 250, 305}[r.Intn(9)]
+			e := newC14Env(3, ntx)
+			all := r.Perm(ntx)
+			ops := []c14Op{{Op: "inv", Conn: 0, Txs: all}, {Op: "inv", Conn: 1, Txs: r.Perm(ntx)},
+				{Op: "inv", Conn: 2, Txs: r.Perm(ntx)[:1+r.Intn(ntx)]}, {Op: "age", Sec: 3.5}, {Op: "check", Conn: 1},
+				{Op: "age", Sec: 1}, {Op: "check", Conn: 2}, {Op: "age", Sec: 2.5}, {Op: "check", Conn: 2}, {Op: "check", Conn: 0}}
+			for _, op := range ops {
+				rep.Event("bulk_op:"+op.Op, 1)
+				if v := e.apply(op); v != nil {
+					rep.Finding(ci, "C14/"+v.rule+"/bulk", fmt.Sprintf("%s | bulk scenario with %d txids: c0 asked, c1 and c2 told to wait, windows expire, checks", v.detail, ntx), map[string]interface{}{"ntx": ntx})
+					break
+				}
 			}
-		}
-		rep.Event("bulk_requests_judged", int64(len(e.lastReq)))
-		rep.Case(fmt.Sprintf("bulk%d", ntx), true)
+			rep.Event("bulk_requests_judged", int64(len(e.lastReq)))
+			rep.Case(fmt.Sprintf("bulk%d", ntx), true)
+		})
 	}
 }
 
